@@ -384,11 +384,26 @@ impl Retrier {
             match r {
                 Ok(_) => {
                     log::info!("Retry strategy succeeded for {}", self.tower_id);
-                    // Set the tower status now so new appointment doesn't go to the retry manager.
-                    self.wt_client
-                        .lock()
-                        .unwrap()
-                        .set_tower_status(self.tower_id, TowerStatus::Reachable);
+                    // Appointments may have been stored as pending without us being told (e.g. by a `on_commitment_revocation`
+                    // that read the tower as unreachable while we were being woken up). The tower is only reachable again if
+                    // nothing is left, otherwise we keep what is left so the manager re-starts us.
+                    let leftovers = {
+                        let mut state = self.wt_client.lock().unwrap();
+                        let leftovers = if state.towers.contains_key(&self.tower_id) {
+                            state.dbm.load_appointment_locators(
+                                self.tower_id,
+                                crate::AppointmentStatus::Pending,
+                            )
+                        } else {
+                            HashSet::new()
+                        };
+                        if leftovers.is_empty() {
+                            // Set the tower status now so new appointment doesn't go to the retry manager.
+                            state.set_tower_status(self.tower_id, TowerStatus::Reachable);
+                        }
+                        leftovers
+                    };
+                    self.pending_appointments.lock().unwrap().extend(leftovers);
                     // Retrier succeeded and can be re-used by re-starting it.
                     self.set_status(RetrierStatus::Stopped);
                 }
